@@ -1,7 +1,708 @@
 import GoRes.Model.Subs
 import GoRes.Lemmas.Pattern
-/-! Helper lemmas for the subscription model (C09). -/
 namespace GoRes.Subs
-open GoRes Ch
+open GoRes Ch Pattern
+
+set_option linter.unusedSimpArgs false
+attribute [local simp] Ch.dot Ch.dollar Ch.star Ch.gt Ch.qmark
+
+/-! Helper lemmas for the subscription model (C09). -/
+
+/-! ## `kept`, abstractly -/
+
+theorem kept_iff (ps : List Str) (i : Nat) (p : Str) :
+    kept ps i p = true ↔ ∀ q j, ps[j]? = some q → i ≠ j → Pattern.matches q p = true →
+      ¬ j < i ∧ Pattern.matches p q = true := by
+  unfold kept
+  rw [Bool.not_eq_true', ← Bool.not_eq_true, List.any_eq_true]
+  constructor
+  · intro h q j hq hij hm
+    by_cases hc : ¬ j < i ∧ Pattern.matches p q = true
+    · exact hc
+    · exfalso
+      apply h
+      refine ⟨(q, j), List.mem_zipIdx_iff_getElem?.2 hq, ?_⟩
+      simp only [Bool.and_eq_true, Bool.or_eq_true, decide_eq_true_eq, Bool.not_eq_true',
+        ne_eq]
+      refine ⟨⟨by simpa using hij, hm⟩, ?_⟩
+      by_cases hji : j < i
+      · exact Or.inl hji
+      · right
+        cases hpq : Pattern.matches p q with
+        | false => rfl
+        | true => exact absurd ⟨hji, hpq⟩ hc
+  · rintro h ⟨⟨q, j⟩, hmem, hx⟩
+    have hq := List.mem_zipIdx_iff_getElem?.1 hmem
+    simp only [Bool.and_eq_true, Bool.or_eq_true, decide_eq_true_eq, Bool.not_eq_true',
+      ne_eq] at hx
+    have := h q j hq (by simpa using hx.1.1) hx.1.2
+    rcases hx.2 with h1 | h1
+    · exact this.1 h1
+    · rw [this.2] at h1; exact absurd h1 (by simp)
+
+theorem zipIdx_pairwise (l : List Str) (k : Nat) :
+    (l.zipIdx k).Pairwise (fun x y => x.2 < y.2) := by
+  induction l generalizing k with
+  | nil => simp
+  | cons a l ih =>
+    rw [List.zipIdx_cons, List.pairwise_cons]
+    refine ⟨?_, ih _⟩
+    rintro ⟨x, i⟩ hx
+    have := List.mem_zipIdx hx
+    simp; omega
+
+/-- the subscribed list, with indices -/
+def keptIdx (ps : List Str) : List (Str × Nat) := ps.zipIdx.filter fun (p, i) => kept ps i p
+
+theorem keptIdx_pairwise (ps : List Str) : (keptIdx ps).Pairwise (fun x y => x.2 < y.2) :=
+  (zipIdx_pairwise ps 0).filter _
+
+theorem mem_keptIdx {ps : List Str} {x : Str × Nat} :
+    x ∈ keptIdx ps ↔ ps[x.2]? = some x.1 ∧ kept ps x.2 x.1 = true := by
+  unfold keptIdx
+  rw [List.mem_filter, List.mem_zipIdx_iff_getElem?]
+
+theorem keptIdx_irredundant (ps : List Str) (i j : Nat) (hi : i < (keptIdx ps).length)
+    (hj : j < (keptIdx ps).length) (hne : i ≠ j) :
+    Pattern.matches (keptIdx ps)[j].1 (keptIdx ps)[i].1 = false := by
+  cases hm : Pattern.matches (keptIdx ps)[j].1 (keptIdx ps)[i].1 with
+  | false => rfl
+  | true =>
+    exfalso
+    have hpw := List.pairwise_iff_getElem.1 (keptIdx_pairwise ps)
+    have hI := mem_keptIdx.1 (List.getElem_mem hi)
+    have hJ := mem_keptIdx.1 (List.getElem_mem hj)
+    have hidx : (keptIdx ps)[i].2 ≠ (keptIdx ps)[j].2 := by
+      rcases Nat.lt_or_gt_of_ne hne with h | h
+      · have := hpw i j hi hj h; omega
+      · have := hpw j i hj hi h; omega
+    have h1 := (kept_iff _ _ _).1 hI.2 _ _ hJ.1 hidx hm
+    have h2 := (kept_iff _ _ _).1 hJ.2 _ _ hI.1 (Ne.symm hidx) h1.2
+    omega
+
+theorem countP_lt_of {α} (p q : α → Bool) (l : List α) (hpq : ∀ x ∈ l, p x = true → q x = true)
+    (a : α) (ha : a ∈ l) (hqa : q a = true) (hpa : p a = false) : l.countP p < l.countP q := by
+  induction l with
+  | nil => simp at ha
+  | cons b l ih =>
+    have hmono : l.countP p ≤ l.countP q :=
+      List.countP_mono_left (fun x hx => hpq x (List.mem_cons_of_mem _ hx))
+    rw [List.mem_cons] at ha
+    rcases ha with rfl | ha
+    · rw [List.countP_cons_of_pos hqa, List.countP_cons_of_neg (by simp [hpa])]
+      omega
+    · have := ih (fun x hx => hpq x (List.mem_cons_of_mem _ hx)) ha
+      by_cases hb : p b = true
+      · rw [List.countP_cons_of_pos hb, List.countP_cons_of_pos (hpq b (List.mem_cons_self ..) hb)]
+        omega
+      · rw [List.countP_cons_of_neg hb]
+        by_cases hb' : q b = true
+        · rw [List.countP_cons_of_pos hb']; omega
+        · rw [List.countP_cons_of_neg hb']; omega
+
+theorem not_kept {ps : List Str} {i : Nat} {p : Str} (h : ¬ kept ps i p = true) :
+    ∃ q j, ps[j]? = some q ∧ i ≠ j ∧ Pattern.matches q p = true ∧
+      (j < i ∨ Pattern.matches p q = false) := by
+  rw [kept_iff] at h
+  apply Classical.byContradiction
+  intro hc
+  apply h
+  intro q j hq hij hm
+  refine ⟨fun hji => hc ⟨q, j, hq, hij, hm, Or.inl hji⟩, ?_⟩
+  cases hpq : Pattern.matches p q with
+  | true => rfl
+  | false => exact absurd ⟨q, j, hq, hij, hm, Or.inr hpq⟩ hc
+
+/-- every pattern is matched by a kept one, when `matches` is a preorder on the list -/
+theorem kept_covers (ps : List Str)
+    (hrefl : ∀ p ∈ ps, Pattern.matches p p = true)
+    (htrans : ∀ a ∈ ps, ∀ b ∈ ps, ∀ c ∈ ps, Pattern.matches a b = true → Pattern.matches b c = true →
+      Pattern.matches a c = true) :
+    ∀ (i : Nat) (p : Str), ps[i]? = some p → ∃ x ∈ keptIdx ps, Pattern.matches x.1 p = true := by
+  have key : ∀ (C i : Nat) (p : Str), ps[i]? = some p → ps.countP (fun q => Pattern.matches q p) ≤ C →
+      ∃ x ∈ keptIdx ps, Pattern.matches x.1 p = true := by
+    intro C
+    induction C with
+    | zero =>
+      intro i p hp hC
+      have hmem : p ∈ ps := List.mem_of_getElem? hp
+      have : 0 < ps.countP (fun q => Pattern.matches q p) :=
+        List.countP_pos_iff.2 ⟨p, hmem, hrefl p hmem⟩
+      omega
+    | succ C ihC =>
+      intro i
+      induction i using Nat.strongRecOn with
+      | _ i ihi =>
+        intro p hp hC
+        have hmem : p ∈ ps := List.mem_of_getElem? hp
+        by_cases hk : kept ps i p = true
+        · exact ⟨(p, i), mem_keptIdx.2 ⟨hp, hk⟩, hrefl p hmem⟩
+        · obtain ⟨q, j, hq, hij, hm, hor⟩ := not_kept hk
+          have hqmem : q ∈ ps := List.mem_of_getElem? hq
+          have hsub : ∀ x ∈ ps, Pattern.matches x q = true → Pattern.matches x p = true :=
+            fun x hx hxq => htrans x hx q hqmem p hmem hxq hm
+          have hle : ps.countP (fun x => Pattern.matches x q) ≤ ps.countP (fun x => Pattern.matches x p) :=
+            List.countP_mono_left hsub
+          by_cases hpq : Pattern.matches p q = true
+          · have hji : j < i := by
+              rcases hor with h | h
+              · exact h
+              · rw [hpq] at h; exact absurd h (by simp)
+            obtain ⟨x, hx, hxq⟩ := ihi j hji q hq (by omega)
+            have hxmem : x.1 ∈ ps := List.mem_of_getElem? (mem_keptIdx.1 hx).1
+            exact ⟨x, hx, htrans _ hxmem q hqmem p hmem hxq hm⟩
+          · have hlt := countP_lt_of (fun x => Pattern.matches x q) (fun x => Pattern.matches x p) ps hsub
+              p hmem (hrefl p hmem) (by simpa using hpq)
+            obtain ⟨x, hx, hxq⟩ := ihC j q hq (by omega)
+            have hxmem : x.1 ∈ ps := List.mem_of_getElem? (mem_keptIdx.1 hx).1
+            exact ⟨x, hx, htrans _ hxmem q hqmem p hmem hxq hm⟩
+  intro i p hp
+  exact key _ i p hp (Nat.le_refl _)
+
+
+/-! ## token-level preorder -/
+
+theorem tokMatches_refl (ts : List Tok) (h : wfPat ts = true) : tokMatches ts ts = true := by
+  induction ts with
+  | nil => simp [tokMatches]
+  | cons t r ih =>
+    have ih' := ih (wfPat_tail h)
+    cases t with
+    | lit a => simp [tokMatches, ih']
+    | tag x => simp [tokMatches, ih']
+    | star => simp [tokMatches, ih']
+    | full =>
+      have := wfPat_full h
+      subst this
+      simp [tokMatches]
+
+theorem tokMatches_full_left {r st : List Tok} (h : tokMatches (.full :: r) st = true) :
+    r = [] ∧ st ≠ [] := by
+  cases r with
+  | nil => cases st <;> simp_all [tokMatches]
+  | cons a r => cases st <;> simp [tokMatches] at h
+
+theorem tokMatches_trans' (pt qt st : List Tok)
+    (h1 : tokMatches pt qt = true) (h2 : tokMatches qt st = true) : tokMatches pt st = true := by
+  induction pt generalizing qt st with
+  | nil =>
+    have : qt = [] := by simpa [tokMatches_nil_left] using h1
+    subst this
+    exact h2
+  | cons t ps ih =>
+    cases qt with
+    | nil => simp [tokMatches_nil_right] at h1
+    | cons n qs =>
+      cases st with
+      | nil => simp [tokMatches_nil_right] at h2
+      | cons s ss =>
+        cases t with
+        | full =>
+          have := (tokMatches_full_left h1).1
+          subst this
+          simp [tokMatches]
+        | lit a =>
+          cases n with
+          | lit b =>
+            cases s with
+            | lit c =>
+              simp only [tokMatches, Bool.and_eq_true, beq_iff_eq] at h1 h2 ⊢
+              exact ⟨h1.1.trans h2.1, ih qs ss h1.2 h2.2⟩
+            | tag x => simp [tokMatches] at h2
+            | star => simp [tokMatches] at h2
+            | full => simp [tokMatches] at h2
+          | tag x => simp [tokMatches] at h1
+          | star => simp [tokMatches] at h1
+          | full => simp [tokMatches] at h1
+        | tag x =>
+          simp only [tokMatches, Bool.and_eq_true, bne_iff_ne] at h1 ⊢
+          cases n with
+          | full => exact absurd rfl h1.1
+          | lit b => cases s <;> simp_all [tokMatches] <;> exact ih _ _ h1 h2.2
+          | tag y => simp_all [tokMatches]; exact ih _ _ h1 h2.2
+          | star => simp_all [tokMatches]; exact ih _ _ h1 h2.2
+        | star =>
+          simp only [tokMatches, Bool.and_eq_true, bne_iff_ne] at h1 ⊢
+          cases n with
+          | full => exact absurd rfl h1.1
+          | lit b => cases s <;> simp_all [tokMatches] <;> exact ih _ _ h1 h2.2
+          | tag y => simp_all [tokMatches]; exact ih _ _ h1 h2.2
+          | star => simp_all [tokMatches]; exact ih _ _ h1 h2.2
+
+/-! ## owned patterns as strings -/
+
+/-- a string that is the rendering of a non-empty well-formed tag-free token list
+(the same as `Props.C09.ownedOk`) -/
+def OwnedOk (p : Str) : Prop :=
+  ∃ ts : List Tok, ts ≠ [] ∧ wfPat ts = true ∧ tagsOf ts = [] ∧ p = render ts
+
+/-- `C17.matches_spec` -/
+theorem matches_tok (a b : List Tok) (ha : wfPat a = true) (hb : wfPat b = true) :
+    Pattern.matches (render a) (render b) = tokMatches a b :=
+  matchesLoop_spec a b ha (wfPat_all_ok hb)
+
+theorem matches_refl_of {p : Str} (h : OwnedOk p) : Pattern.matches p p = true := by
+  obtain ⟨ts, _, hw, _, rfl⟩ := h
+  rw [matches_tok ts ts hw hw]
+  exact tokMatches_refl ts hw
+
+/-- what transitivity needs of a string: it renders *some* well-formed token list -/
+def IsPat (p : Str) : Prop := ∃ ts : List Tok, wfPat ts = true ∧ p = render ts
+
+theorem OwnedOk.isPat {p : Str} (h : OwnedOk p) : IsPat p := by
+  obtain ⟨ts, _, hw, _, rfl⟩ := h; exact ⟨ts, hw, rfl⟩
+
+theorem matches_trans_of {a b c : Str} (ha : IsPat a) (hb : IsPat b) (hc : IsPat c)
+    (h1 : Pattern.matches a b = true) (h2 : Pattern.matches b c = true) :
+    Pattern.matches a c = true := by
+  obtain ⟨ta, hwa, rfl⟩ := ha
+  obtain ⟨tb, hwb, rfl⟩ := hb
+  obtain ⟨tc, hwc, rfl⟩ := hc
+  rw [matches_tok _ _ hwa hwb] at h1
+  rw [matches_tok _ _ hwb hwc] at h2
+  rw [matches_tok _ _ hwa hwc]
+  exact tokMatches_trans' _ _ _ h1 h2
+
+/-! ## rendering -/
+
+theorem render_lit_cons (t : Str) (ts : List Tok) (hne : ts ≠ []) :
+    t ++ dot :: render ts = render (.lit t :: ts) := by
+  cases ts with
+  | nil => exact absurd rfl hne
+  | cons a r => rw [render_cons (.lit t), rrest_cons]; rfl
+
+theorem render_append (a b : List Tok) (ha : a ≠ []) (hb : b ≠ []) :
+    render (a ++ b) = render a ++ dot :: render b := by
+  induction a with
+  | nil => exact absurd rfl ha
+  | cons t r ih =>
+    cases r with
+    | nil =>
+      cases b with
+      | nil => exact absurd rfl hb
+      | cons x b => simp [render_cons t, rrest_cons]
+    | cons y r =>
+      have := ih (by simp)
+      rw [List.cons_append, render_cons t, render_cons t, rrest_cons]
+      rw [List.cons_append] at this ⊢
+      rw [rrest_cons, this]
+      simp
+
+theorem render_ne_nil {ts : List Tok} (hne : ts ≠ []) (hw : wfPat ts = true) : render ts ≠ [] := by
+  cases ts with
+  | nil => exact absurd rfl hne
+  | cons t r => exact render_cons_ne_nil (Tok.ok_sOk (wfPat_head hw))
+
+theorem tagsOf_cons_nil {t : Tok} {r : List Tok} (h : tagsOf (t :: r) = []) :
+    (∀ x, t ≠ .tag x) ∧ tagsOf r = [] := by
+  cases t <;> simp_all [tagsOf]
+
+theorem tok_getLast {t : Tok} (hok : t.ok = true) (hnt : ∀ x, t ≠ .tag x) :
+    t.render.getLast? = some gt ↔ t = .full := by
+  cases t with
+  | lit s =>
+    simp only [Tok.render_lit, reduceCtorEq, iff_false]
+    intro h
+    have hmem : 62 ∈ s := List.mem_of_getLast? h
+    cases s with
+    | nil => simp at hmem
+    | cons c r =>
+      have h' := (litOk_cons_iff c r).1 hok
+      rw [List.mem_cons] at hmem
+      rcases hmem with h1 | h1
+      · omega
+      · have := (okc_iff _).1 (h'.2 _ h1); omega
+  | tag x => exact absurd rfl (hnt x)
+  | star => simp [gt]
+  | full => simp
+
+theorem getLast?_append_cons_of_ne {α} (a : List α) (c : α) (X : List α) (h : X ≠ []) :
+    (a ++ c :: X).getLast? = X.getLast? := by
+  cases X with
+  | nil => exact absurd rfl h
+  | cons x X => rw [List.getLast?_append, List.getLast?_cons_cons, List.getLast?_cons]; rfl
+
+theorem render_getLast {ts : List Tok} (hw : wfPat ts = true) (hnt : tagsOf ts = []) :
+    (render ts).getLast? = some gt ↔ ts.getLast? = some .full := by
+  induction ts with
+  | nil => simp
+  | cons t r ih =>
+    have ⟨h1, h2⟩ := tagsOf_cons_nil hnt
+    cases r with
+    | nil =>
+      simp only [render_cons, rrest_nil, List.append_nil, List.getLast?_singleton, Option.some.injEq]
+      exact tok_getLast (wfPat_head hw) h1
+    | cons y r =>
+      have hne := render_ne_nil (ts := y :: r) (by simp) (wfPat_tail hw)
+      rw [render_cons, rrest_cons, getLast?_append_cons_of_ne _ _ _ hne, List.getLast?_cons_cons]
+      exact ih (wfPat_tail hw) h2
+
+/-! ## request patterns as token lists -/
+
+/-- the tokens of `reqPattern t (render ts)` -/
+def reqToks (t : Str) (ts : List Tok) : List Tok :=
+  if ts.getLast? ≠ some .full ∧ t ≠ tGet then .lit t :: (ts ++ [.star]) else .lit t :: ts
+
+theorem reqPattern_render (t : Str) (ts : List Tok) (hne : ts ≠ []) (hw : wfPat ts = true)
+    (hnt : tagsOf ts = []) : reqPattern t (render ts) = render (reqToks t ts) := by
+  have hr := render_ne_nil hne hw
+  have hl : (t ++ dot :: render ts).getLast? = (render ts).getLast? :=
+    getLast?_append_cons_of_ne _ _ _ hr
+  unfold reqPattern reqToks
+  simp only [hl, ne_eq, render_getLast hw hnt]
+  split
+  · rw [← render_lit_cons t _ (by simp), render_append ts [.star] hne (by simp)]
+    simp [render, joinDots]
+  · rw [render_lit_cons t ts hne]
+
+theorem wfPat_append_star {ts : List Tok} (hw : wfPat ts = true) (hl : ts.getLast? ≠ some .full) :
+    wfPat (ts ++ [.star]) = true := by
+  induction ts with
+  | nil => rfl
+  | cons t r ih =>
+    rw [List.cons_append, wfPat_cons]
+    have hr : r.getLast? ≠ some .full := by
+      cases r with
+      | nil => simp
+      | cons y r => rwa [List.getLast?_cons_cons] at hl
+    have ht : t ≠ .full := by
+      rintro rfl
+      have := wfPat_full hw
+      subst this
+      simp at hl
+    simp [wfPat_head hw, ht, ih (wfPat_tail hw) hr]
+
+theorem wfPat_lit_cons {t : Str} {ts : List Tok} (ht : litOk t = true) (hw : wfPat ts = true) :
+    wfPat (.lit t :: ts) = true := by
+  rw [wfPat_cons]; simp [Tok.ok, ht, hw]
+
+theorem tagsOf_append_star (ts : List Tok) : tagsOf (ts ++ [.star]) = tagsOf ts := by
+  induction ts with
+  | nil => rfl
+  | cons t r ih => cases t <;> simp [tagsOf, ih]
+
+theorem reqToks_ok {t : Str} {ts : List Tok} (ht : litOk t = true) (hw : wfPat ts = true)
+    (hnt : tagsOf ts = []) :
+    reqToks t ts ≠ [] ∧ wfPat (reqToks t ts) = true ∧ tagsOf (reqToks t ts) = [] := by
+  unfold reqToks
+  split
+  · next h =>
+    exact ⟨by simp, wfPat_lit_cons ht (wfPat_append_star hw h.1), by simp [tagsOf, tagsOf_append_star, hnt]⟩
+  · exact ⟨by simp, wfPat_lit_cons ht hw, by simp [tagsOf, hnt]⟩
+
+theorem reqPattern_ok {t p : Str} (ht : litOk t = true) (hp : OwnedOk p) : OwnedOk (reqPattern t p) := by
+  obtain ⟨ts, hne, hw, hnt, rfl⟩ := hp
+  have := reqToks_ok (t := t) ht hw hnt
+  exact ⟨reqToks t ts, this.1, this.2.1, this.2.2, reqPattern_render t ts hne hw hnt⟩
+
+theorem accPattern_ok {t p : Str} (ht : litOk t = true) (hp : OwnedOk p) : OwnedOk (t ++ dot :: p) := by
+  obtain ⟨ts, hne, hw, hnt, rfl⟩ := hp
+  exact ⟨.lit t :: ts, by simp, wfPat_lit_cons ht hw, by simp [tagsOf, hnt], render_lit_cons t ts hne⟩
+
+theorem mem_allPatterns {res acc : List Str} {n : Str} :
+    n ∈ allPatterns res acc ↔
+      (∃ t ∈ [tGet, tCall, tAuth], ∃ p ∈ res, n = reqPattern t p) ∨ ∃ p ∈ acc, n = tAccess ++ dot :: p := by
+  unfold allPatterns
+  simp only [List.mem_append, List.mem_flatMap, List.mem_map]
+  constructor
+  · rintro (⟨t, ht, p, hp, rfl⟩ | ⟨p, hp, rfl⟩)
+    · exact Or.inl ⟨t, ht, p, hp, rfl⟩
+    · exact Or.inr ⟨p, hp, rfl⟩
+  · rintro (⟨t, ht, p, hp, rfl⟩ | ⟨p, hp, rfl⟩)
+    · exact Or.inl ⟨t, ht, p, hp, rfl⟩
+    · exact Or.inr ⟨p, hp, rfl⟩
+
+theorem allPatterns_ok {res acc : List Str} (hok : ∀ p ∈ res ++ acc, OwnedOk p) :
+    ∀ n ∈ allPatterns res acc, OwnedOk n := by
+  intro n hn
+  rcases mem_allPatterns.1 hn with ⟨t, ht, p, hp, rfl⟩ | ⟨p, hp, rfl⟩
+  · have htok : litOk t = true := by
+      simp only [List.mem_cons, List.not_mem_nil, or_false] at ht
+      rcases ht with rfl | rfl | rfl <;> decide
+    exact reqPattern_ok htok (hok p (List.mem_append_left _ hp))
+  · exact accPattern_ok (by decide) (hok p (List.mem_append_right _ hp))
+
+/-! ## `subscribe` -/
+
+theorem subscribe_eq {c : Cfg} {subs : List Str} (h : subscribe c = some subs) :
+    subs = (keptIdx (allPatterns (ownership c).1 (ownership c).2)).map (·.1) := by
+  unfold subscribe at h
+  simp only at h
+  split at h
+  · simp at h
+  · simp only [Option.some.injEq] at h
+    rw [← h]; rfl
+
+theorem mem_subs_of_keptIdx {ps : List Str} {x : Str × Nat} (h : x ∈ keptIdx ps) :
+    x.1 ∈ (keptIdx ps).map (·.1) := List.mem_map.2 ⟨x, h, rfl⟩
+
+theorem subs_subset {ps : List Str} {s : Str} (h : s ∈ (keptIdx ps).map (·.1)) : s ∈ ps := by
+  obtain ⟨x, hx, rfl⟩ := List.mem_map.1 h
+  exact List.mem_of_getElem? (mem_keptIdx.1 hx).1
+
+theorem subs_cover {ps : List Str} (hok : ∀ n ∈ ps, OwnedOk n) (n : Str) (hn : n ∈ ps) :
+    ∃ s ∈ (keptIdx ps).map (·.1), Pattern.matches s n = true := by
+  obtain ⟨i, hi, rfl⟩ := List.mem_iff_getElem.1 hn
+  obtain ⟨x, hx, hm⟩ := kept_covers ps (fun p hp => matches_refl_of (hok p hp))
+    (fun a ha b hb c hc => matches_trans_of (hok a ha).isPat (hok b hb).isPat (hok c hc).isPat)
+    i ps[i] (List.getElem?_eq_getElem hi)
+  exact ⟨x.1, mem_subs_of_keptIdx hx, hm⟩
+
+/-! ## concrete request subjects -/
+
+theorem tokMatches_extend_full {ts name : List Tok} (m : List Tok) (hl : ts.getLast? = some .full)
+    (h : tokMatches ts name = true) : tokMatches ts (name ++ m) = true := by
+  induction ts generalizing name with
+  | nil => simp at hl
+  | cons t r ih =>
+    cases name with
+    | nil => simp [tokMatches_nil_right] at h
+    | cons n ns =>
+      cases r with
+      | nil =>
+        simp only [List.getLast?_singleton, Option.some.injEq] at hl
+        subst hl
+        simp [tokMatches]
+      | cons y r =>
+        rw [List.getLast?_cons_cons] at hl
+        cases t with
+        | full => simp [tokMatches] at h
+        | lit a =>
+          cases n <;> simp_all [tokMatches]
+        | tag x => simp_all [tokMatches]
+        | star => simp_all [tokMatches]
+
+theorem tokMatches_extend_star {ts name : List Tok} (s : Str) (hl : ts.getLast? ≠ some .full)
+    (h : tokMatches ts name = true) : tokMatches (ts ++ [.star]) (name ++ [.lit s]) = true := by
+  induction ts generalizing name with
+  | nil =>
+    have : name = [] := by simpa [tokMatches_nil_left] using h
+    subst this
+    simp [tokMatches]
+  | cons t r ih =>
+    cases name with
+    | nil => simp [tokMatches_nil_right] at h
+    | cons n ns =>
+      have hr : r.getLast? ≠ some .full := by
+        cases r with
+        | nil => simp
+        | cons y r => rwa [List.getLast?_cons_cons] at hl
+      cases t with
+      | full =>
+        have := (tokMatches_full_left h).1
+        subst this
+        simp at hl
+      | lit a => cases n <;> simp_all [tokMatches]
+      | tag x => simp_all [tokMatches]
+      | star => simp_all [tokMatches]
+
+theorem isName_append_lit {name : List Tok} {s : Str} (hn : isName name = true) (hs : litOk s = true) :
+    isName (name ++ [.lit s]) = true := by
+  simp only [isName, Bool.and_eq_true, Bool.not_eq_true', List.isEmpty_eq_false_iff, ne_eq,
+    List.all_eq_true] at hn ⊢
+  refine ⟨by simp, ?_⟩
+  intro t ht
+  rw [List.mem_append] at ht
+  rcases ht with ht | ht
+  · exact hn.2 t ht
+  · simp only [List.mem_singleton] at ht; subst ht; exact hs
+
+theorem isName_ne_nil {name : List Tok} (hn : isName name = true) : name ≠ [] := by
+  rintro rfl; simp [isName] at hn
+
+/-- the request pattern of an owned pattern matches the request subjects of the names it matches -/
+theorem reqPattern_matches_get {p : Str} (hp : OwnedOk p) {name : List Tok} (hname : isName name = true)
+    (hm : Pattern.matches p (render name) = true) :
+    Pattern.matches (reqPattern tGet p) (tGet ++ dot :: render name) = true := by
+  obtain ⟨ts, hne, hw, hnt, rfl⟩ := hp
+  have hwn := wfPat_of_isName hname
+  rw [matches_tok _ _ hw hwn] at hm
+  rw [reqPattern_render _ _ hne hw hnt, render_lit_cons _ _ (isName_ne_nil hname),
+    matches_tok _ _ (reqToks_ok (by decide) hw hnt).2.1 (wfPat_lit_cons (by decide) hwn)]
+  simp [reqToks, tokMatches, hm]
+
+theorem reqPattern_matches_method {t p : Str} (ht : litOk t = true) (htg : t ≠ tGet) (hp : OwnedOk p) {name : List Tok}
+    (hname : isName name = true) (hm : Pattern.matches p (render name) = true) {s : Str}
+    (hs : litOk s = true) :
+    Pattern.matches (reqPattern t p) (t ++ dot :: render (name ++ [.lit s])) = true := by
+  obtain ⟨ts, hne, hw, hnt, rfl⟩ := hp
+  have hwn := wfPat_of_isName hname
+  have hname' := isName_append_lit hname hs
+  have hwn' := wfPat_of_isName hname'
+  rw [matches_tok _ _ hw hwn] at hm
+  rw [reqPattern_render _ _ hne hw hnt, render_lit_cons _ _ (isName_ne_nil hname'),
+    matches_tok _ _ (reqToks_ok ht hw hnt).2.1 (wfPat_lit_cons ht hwn')]
+  unfold reqToks
+  split
+  · next h => simpa [tokMatches] using tokMatches_extend_star s h.1 hm
+  · next h =>
+    by_cases hl : ts.getLast? = some .full
+    · simpa [tokMatches] using tokMatches_extend_full [.lit s] hl hm
+    · exact absurd ⟨hl, htg⟩ h
+
+theorem accPattern_matches {t p : Str} (ht : litOk t = true) (hp : OwnedOk p) {name : List Tok}
+    (hname : isName name = true) (hm : Pattern.matches p (render name) = true) :
+    Pattern.matches (t ++ dot :: p) (t ++ dot :: render name) = true := by
+  obtain ⟨ts, hne, hw, hnt, rfl⟩ := hp
+  have hwn := wfPat_of_isName hname
+  rw [matches_tok _ _ hw hwn] at hm
+  rw [render_lit_cons _ _ hne, render_lit_cons _ _ (isName_ne_nil hname),
+    matches_tok _ _ (wfPat_lit_cons ht hw) (wfPat_lit_cons ht hwn)]
+  simp [tokMatches, hm]
+
+/-! ## subject validity -/
+
+theorem Tok.ok_visible {t : Tok} (h : t.ok = true) : ∀ c ∈ t.render, 33 ≤ c := by
+  cases t with
+  | lit s =>
+    cases s with
+    | nil => simp [Tok.ok, litOk] at h
+    | cons c r =>
+      have h' := (litOk_cons_iff c r).1 h
+      intro x hx
+      simp only [Tok.render_lit, List.mem_cons] at hx
+      rcases hx with rfl | hx
+      · omega
+      · have := (okc_iff x).1 (h'.2 x hx); omega
+  | tag n =>
+    have h' := (tagOk_iff n).1 h
+    intro x hx
+    simp only [Tok.render_tag, List.mem_cons] at hx
+    rcases hx with rfl | hx
+    · omega
+    · have := (okc_iff x).1 (h'.1 x hx); omega
+  | star => intro x hx; simp at hx; omega
+  | full => intro x hx; simp at hx; omega
+
+theorem validSubject_of {s : Str} (h : OwnedOk s) : validSubject s = true := by
+  obtain ⟨ts, hne, hw, _, rfl⟩ := h
+  cases ts with
+  | nil => exact absurd rfl hne
+  | cons t r =>
+    have hok := wfPat_all_ok hw
+    have hs : ∀ n ∈ t :: r, n.sOk := fun n hn => Tok.ok_sOk (hok n hn)
+    have hr := render_ne_nil hne hw
+    unfold validSubject
+    rw [splitDots_render t r hs]
+    simp only [Bool.and_eq_true, Bool.not_eq_true', List.isEmpty_eq_false_iff, ne_eq,
+      List.all_eq_true, List.mem_map, forall_exists_index, and_imp, decide_eq_true_eq]
+    refine ⟨hr, ?_⟩
+    rintro _ n hn rfl
+    refine ⟨(hs n hn).1, ?_⟩
+    intro c hc
+    have := Tok.ok_visible (hok n hn) c hc
+    omega
+
+/-! ## `Matches` is NATS matching -/
+
+theorem natsCovers_nil (ts : List Str) : natsCovers [] ts = ts.isEmpty := by
+  cases ts <;> simp [natsCovers]
+
+theorem natsCovers_cons (p : Str) (ps : List Str) (t : Str) (ts : List Str) :
+    natsCovers (p :: ps) (t :: ts) =
+      if p = [gt] then ps.isEmpty else ((p = [star] && t ≠ [gt] || p = t) && natsCovers ps ts) := by
+  cases ps with
+  | nil =>
+    simp only [natsCovers, natsCovers_nil]
+    split <;> simp
+  | cons q ps =>
+    simp only [natsCovers]
+    split <;> simp_all
+
+theorem litOk_render_ne {a : Str} (h : litOk a = true) : a ≠ [star] ∧ a ≠ [gt] := by
+  cases a with
+  | nil => simp [litOk] at h
+  | cons c r =>
+    have h' := (litOk_cons_iff c r).1 h
+    constructor <;> intro he <;> simp at he <;> omega
+
+theorem tokMatches_nats (ps ss : List Tok) (hp : wfPat ps = true) (hs : wfPat ss = true)
+    (hpt : tagsOf ps = []) (hst : tagsOf ss = []) :
+    tokMatches ps ss = natsCovers (ps.map Tok.render) (ss.map Tok.render) := by
+  induction ps generalizing ss with
+  | nil => simp [tokMatches_nil_left, natsCovers_nil]
+  | cons t r ih =>
+    cases ss with
+    | nil => simp [tokMatches_nil_right, natsCovers]
+    | cons n ns =>
+      have ⟨hp1, hp2⟩ := tagsOf_cons_nil hpt
+      have ⟨hs1, hs2⟩ := tagsOf_cons_nil hst
+      have ih' := ih ns (wfPat_tail hp) (wfPat_tail hs) hp2 hs2
+      rw [List.map_cons, List.map_cons, natsCovers_cons, ← ih']
+      have hnok := wfPat_head hs
+      cases t with
+      | tag x => exact absurd rfl (hp1 x)
+      | full =>
+        have := wfPat_full hp
+        subst this
+        simp [tokMatches]
+      | star =>
+        cases n with
+        | tag x => exact absurd rfl (hs1 x)
+        | lit b =>
+          have := litOk_render_ne (a := b) hnok
+          simp [tokMatches, this.2]
+        | star => simp [tokMatches]
+        | full => simp [tokMatches]
+      | lit a =>
+        have ha := litOk_render_ne (a := a) (wfPat_head hp)
+        cases n with
+        | tag x => exact absurd rfl (hs1 x)
+        | lit b =>
+          simp only [tokMatches, Tok.render_lit, ha.2, if_false, ha.1, decide_false, Bool.false_and, Bool.false_or]
+          by_cases hab : a = b <;> simp [hab]
+        | star => simp [tokMatches, ha.1, ha.2]
+        | full => simp [tokMatches, ha.1, ha.2]
+
+theorem matches_eq_covers (ps ss : List Tok) (hp : wfPat ps = true) (hs : wfPat ss = true)
+    (hpt : tagsOf ps = []) (hst : tagsOf ss = []) (hne : ps ≠ []) (hne' : ss ≠ []) :
+    Pattern.matches (render ps) (render ss) = Subs.covers (render ps) (render ss) := by
+  rw [matches_tok _ _ hp hs, tokMatches_nats ps ss hp hs hpt hst]
+  unfold Subs.covers
+  cases ps with
+  | nil => exact absurd rfl hne
+  | cons t r =>
+    cases ss with
+    | nil => exact absurd rfl hne'
+    | cons n ns =>
+      rw [splitDots_render t r (fun n hn => Tok.ok_sOk (wfPat_all_ok hp n hn)),
+        splitDots_render n ns (fun n hn => Tok.ok_sOk (wfPat_all_ok hs n hn))]
+
+/-! ## default ownership -/
+
+theorem isName_wf_full {ts : List Tok} (h : isName ts = true) :
+    wfPat (ts ++ [.full]) = true ∧ tagsOf (ts ++ [.full]) = [] ∧ tagsOf ts = [] := by
+  have hall := ((isName_iff ts).1 h).2
+  clear h
+  induction ts with
+  | nil => simp [wfPat, Tok.ok, tagsOf]
+  | cons t r ih =>
+    have := ih (fun n hn => hall n (List.mem_cons_of_mem _ hn))
+    obtain ⟨s, rfl, hs⟩ := hall t (List.mem_cons_self ..)
+    rw [List.cons_append, wfPat_cons]
+    simp [Tok.ok, hs, this, tagsOf]
+
+theorem defaultPatterns_ok (name : Str) (ts : List Tok) (hts : isName ts = true) (hn : name = render ts) :
+    ∀ p ∈ defaultPatterns name, OwnedOk p := by
+  subst hn
+  have hne := isName_ne_nil hts
+  have hw := wfPat_of_isName hts
+  have hr := render_ne_nil hne hw
+  have h3 := isName_wf_full hts
+  unfold defaultPatterns
+  simp only [List.isEmpty_iff, hr, if_false]
+  intro p hp
+  simp only [List.mem_cons, List.not_mem_nil, or_false] at hp
+  rcases hp with rfl | rfl
+  · exact ⟨ts, hne, hw, h3.2.2, rfl⟩
+  · refine ⟨ts ++ [.full], by simp, h3.1, h3.2.1, ?_⟩
+    rw [render_append ts [.full] hne (by simp)]
+    rfl
+
+theorem defaultPatterns_nil_ok : ∀ p ∈ defaultPatterns [], OwnedOk p := by
+  intro p hp
+  simp [defaultPatterns] at hp
+  subst hp
+  exact ⟨[.full], by simp, by decide, by decide, by decide⟩
 
 end GoRes.Subs
